@@ -23,5 +23,5 @@ CHECK = {
         "at distance == radius either coverage verdict is tolerated",
         "a case in which the table changed during the gossip call is discarded and counted",
     ],
-    "required_classes": {"quick": [">8-covered-candidates", "source-among-closest", "unknown-radius-among-nearest-32", "radius-updated-twice", "gossip-sent", "back-to-back-ping", "net:beacon", "net:state"]},
+    "required_classes": {"quick": [">8-covered-candidates", "source-among-closest", "unknown-radius-among-nearest-32", "radius-updated-twice", "gossip-sent", "back-to-back-ping", "net:beacon", "net:state", "source-is-covered-candidate-beyond-the-closest-four"]},
 }
